@@ -100,6 +100,12 @@ CHECKS = {
             "-0.0 ... and must give the implementation's outcome.  Parsing totality and the interpreter's recursion budget are decided by the oracle "
             "(generated schemas, odd code points, depth 120-150).  Fixes 2eb3576, 75e1ab7; finding K8.",
             "full on the evaluator modulo the two arithmetic primitives (named premises); parser totality and recursion budget by oracle"),
+    "C19": ("Coq theorem by induction on the element tree (constructed value has the generated annotation: lists, tuples, unions, compositions, classes), property-level corollaries (Maybe wrapper, presence), refuted AllOf witness + vm_compute correspondence of annotation texts and of the soundness statement + typing-based oracle on built models",
+            "C19_sound holds for every element tree, oracle and accepted value under the AllOf premise (finding K9, C19_allof_refuted shows it is necessary); C19_property / "
+            "C19_present cover every property of every model class for supplied and omitted members (premise: declared defaults are valid, finding K20).  Annot.v is tied "
+            "to the code by comparing annotation texts of every generated element/property in Coq, and the oracle reads the generated annotation with `typing` and "
+            "checks every attribute of every built model.",
+            "full on the model (Annot.v + Validate.v) under the two named premises"),
 }
 
 REASONS_PENDING = "check under construction in this session: not yet claimed"
